@@ -222,6 +222,44 @@ def check_b(ck, repo):
     apps = [s for s in ast.walk(loops[0]) if isinstance(s, ast.Expr) and src_of(s.value).startswith("rows.append(")] if loops else []
     in_branch = [s for s in apps if not any(s is x for x in loops[0].body)]
     ck.verdict(ok and len(apps) == 1 and not in_branch, "C16.b", ps, "for coor, model, vs in enumerate_pipeline_models(pipe): ... rows.append(msg)", "exactly one row per yielded model", "pipeline2str does not append exactly one row per yielded model")
+    # each row is one physical line: indentation, class name, optional "(columns)"
+    if len(apps) == 1 and isinstance(apps[0].value, ast.Call) and len(apps[0].value.args) == 1:
+        from .sem import guarded_values
+
+        item = ctext('__it__(enumerate_pipeline_models(pipe), "(\'elem\',)", 0)')
+        for c_, v_, _st in guarded_values(repo, ps, apps[0].value.args[0], apps[0]):
+            try:
+                y = ast.parse(_nt(v_), mode="eval").body
+            except SyntaxError:
+                y = v_
+            why, multi = None, False
+            if isinstance(y, ast.JoinedStr):
+                for part in y.values:
+                    if isinstance(part, ast.Constant):
+                        if "\n" in str(part.value) or "\r" in str(part.value):
+                            why, multi = f"the literal {part.value!r} breaks the line", True
+                    elif isinstance(part, ast.FormattedValue):
+                        t = ast.unparse(part.value)
+                        e_ = part.value
+                        if t.startswith("' ' * ") or t.endswith(" * ' '") or t.endswith(".__name__"):
+                            continue
+                        if isinstance(e_, ast.Call) and isinstance(e_.func, ast.Attribute) and e_.func.attr == "join" and isinstance(e_.func.value, ast.Constant) and isinstance(e_.func.value.value, str) and "\n" not in e_.func.value.value:
+                            continue
+                        why = f"the piece {t[:60]} is not the indentation, a class name or the joined column list"
+            else:
+                t = ast.unparse(y)
+                f_ = ast.unparse(y.func) if isinstance(y, ast.Call) else ""
+                if f_ in ("textwrap.fill", "fill", "textwrap.indent", "pprint.pformat", "pformat") or f_.endswith((".join",)) and isinstance(y.func.value, ast.Constant) and "\n" in str(y.func.value.value):
+                    why, multi = f"{f_}(...) cuts or joins the text with line breaks", True
+                else:
+                    why = f"the row {t[:70]} is not an f-string of indentation, class name and columns"
+            facts = sorted(c_)
+            if why is None:
+                ck.holds("C16.b", ps, f"row when {[(a[-12:], b) for a, b in facts]}", "the row is indentation + class name (+ joined columns): one physical line per model")
+            elif multi:
+                ck.violated("C16.b", ps, apps[0], f"{why}: a model can produce several lines, so the lines of pipeline2str and the models yielded by enumerate_pipeline_models no longer correspond one to one")
+            else:
+                ck.unknown("C16.b", ps, apps[0], why)
     sp = [s for s in ast.walk(ps.node) if isinstance(s, ast.Assign) and src_of(s.targets[0]) == "spaces"]
     ck.verdict(len(sp) == 1 and src_of(sp[0].value) == "' ' * indent * (len(coor) - 1)", "C16.b", ps, sp[0] if sp else "spaces = ...", "indentation = indent * (depth - 1)", "indentation is not indent * (len(coor) - 1)")
     r = [src_of(x.value) for x in own_nodes(ps.node) if isinstance(x, ast.Return)]
@@ -385,6 +423,33 @@ def check_d(ck, repo):
             else:
                 ck.holds("C16.d", fi, st, f"{how} on a list built in this call (`{src_of(recv)}`)", nontrivial=False)
     ck.holds("C16.d", pi, "no in-place update of a shared name list", f"{n} update sites of _pipeline_info and its helpers examined")
+    # the name lists of a record are read several times (the remainder block of a column
+    # transformer, then the drawing loop): what is stored must be re-iterable
+    mod = pi.module
+    reads = {}
+    for nd in ast.walk(mod.tree):
+        if isinstance(nd, ast.Subscript) and isinstance(nd.ctx, ast.Load) and isinstance(nd.slice, ast.Constant) and nd.slice.value in ("inputs", "outputs"):
+            reads[nd.slice.value] = reads.get(nd.slice.value, 0) + 1
+    ex = expander(repo)
+    m = 0
+    for fi in [pi] + nested_functions(repo, pi):
+        stores = []
+        for st in own_nodes(fi.node):
+            if isinstance(st, ast.Assign):
+                for t in st.targets:
+                    if isinstance(t, ast.Subscript) and isinstance(t.slice, ast.Constant) and t.slice.value in ("inputs", "outputs"):
+                        stores.append((st, t.slice.value, st.value))
+            if isinstance(st, ast.Dict):
+                for k_, v_ in zip(st.keys, st.values):
+                    if isinstance(k_, ast.Constant) and k_.value in ("inputs", "outputs"):
+                        stores.append((stmt_of(st), k_.value, v_))
+        for st, key, val in stores:
+            m += 1
+            alts = [v for _, v, _ in guarded_values(repo, fi, val, st)] or [val]
+            one_shot = [v for v in alts if isinstance(v, ast.GeneratorExp) or (isinstance(v, ast.Call) and src_of(v.func) in ("map", "filter", "zip", "iter", "reversed", "enumerate", "chain", "itertools.chain", "chain.from_iterable", "itertools.chain.from_iterable"))]
+            if one_shot and reads.get(key, 0) >= 2:
+                ck.violated("C16.d", fi, st, f"record['{key}'] = {src_of(one_shot[0])[:70]}: a one-shot iterator; the key is read at {reads[key]} places of the module (the remainder='passthrough' block reads the inputs of earlier steps before pipeline2dot draws them): the second reader finds it exhausted and the step is drawn without its input edges")
+    ck.holds("C16.d", pi, "name lists stored in records are re-iterable", f"{m} stores under 'inputs' / 'outputs' examined; read sites: {reads}")
 
 
 def run(ck):
@@ -429,3 +494,7 @@ TWINS = [
     {"name": "union-outputs-renamed-by-comprehension", "file": _V, "old": _OLD_LOOP, "new": '            new_outputs = [_get_name(context, prefix=o, info=info) for o in info[-1]["outputs"]]\n            outputs.extend(new_outputs)\n            info[-1]["outputs"] = new_outputs\n'},
 ]
 MIN_WITNESSES = 12
+WITNESSES += [
+    {"name": "rows-wrapped-by-textwrap", "file": _V, "rule": "C16.b", "old": "        rows.append(msg)\n", "new": "        import textwrap\n\n        rows.append(textwrap.fill(msg, width=80))\n"},
+    {"name": "identity-inputs-generator", "file": _V, "rule": "C16.d", "old": 'info["inputs"] = [_get_name_simple(n, former_data) for n in data]', "new": 'info["inputs"] = (_get_name_simple(n, former_data) for n in data)'},
+]
